@@ -493,6 +493,32 @@ def rule_ideal_early_exit(ctx):
                             _, calls, _ = data_deps(clo, oo.data["ops"][1])
                             if any(callee_matches(callee_of(c), r"slice::len$|Vec::len$") for c in calls):
                                 good = True
+                    if not good:
+                        # the test is made by a method of a private state object the callback hands the extension to
+                        # (`|ext| state.absorb(ext)` returning `!self.is_reduced_to_grounded()`): the returned bool, with private
+                        # getters inlined, is a comparison of two counters
+                        from ..prov import prov as _pv, inlining as _inl, subterms as _sub
+
+                        und = False
+                        for oo in origins(clo, {"l": 0, "p": []}, transparent=()):
+                            if oo.kind == "call":
+                                tgt = prog.body_for_callee(oo.data, clo)
+                                if tgt is not None and tgt.kind != "closure":
+                                    with _inl():
+                                        for e in _pv(prog, tgt, {"l": 0, "p": []}):
+                                            neg = False
+                                            while e[0] == "op" and e[1] == "Not":
+                                                neg = not neg
+                                                e = e[2][0]
+                                            if e[0] == "op" and ((e[1] == "Ne" and not neg) or (e[1] == "Eq" and neg)) and all(x[0] == "param" and x[3] for x in e[2]):
+                                                good = True
+                                            elif e[0] == "op" and e[1] in ("Eq", "Ne"):
+                                                pass
+                                            else:
+                                                und = True
+                        if not good and und:
+                            r.ok(clo.id, "NOT decided: the stop test of the ID callback is made in a form the rule does not follow", clo.loc())
+                            continue
                     r.check(good, clo.id, "callback-result", "callback returns `count != grounded.len()`", "the ID callback does not stop the enumeration when the intersection equals the grounded extension", clo.loc())
 
 
